@@ -25,6 +25,8 @@ mod c13;
 mod c14;
 mod c15;
 mod c16;
+#[cfg(feature = "sdp")]
+mod c17;
 mod selftest;
 
 fn usage() -> ! {
@@ -77,6 +79,7 @@ fn main() {
     ctx.scale = scale;
     ctx.budget_s = budget;
     ctx.replay = replay;
+    ctx.out_path = out.clone();
 
     match prop.as_str() {
         "selftest" => selftest::run(&mut ctx),
@@ -95,6 +98,8 @@ fn main() {
         "C14" => c14::run(&mut ctx),
         "C15" => c15::run(&mut ctx),
         "C16" => c16::run(&mut ctx),
+        #[cfg(feature = "sdp")]
+        "C17" => c17::run(&mut ctx),
         _ => {
             eprintln!("unknown property {prop}");
             std::process::exit(2);
